@@ -101,6 +101,9 @@ async fn in_context(pattern: &str, keys: &[String]) -> Result<(BTreeSet<String>,
             }
         }
     }
+    // the subscription is given up before the delete: a pdelete of more keys than its channel has slots
+    // would otherwise wait for a receiver that is only drained afterwards
+    drop(sub);
     let q: BTreeSet<String> = match res(wb.pget(pattern)) {
         Ok(kvps) => kvps.into_iter().map(|k| k.key).collect(),
         Err(_) => BTreeSet::new(),
